@@ -130,8 +130,14 @@ class GotranODECodePrinter(BaseGotranODECodePrinter):
         for i in self.ode.intermediates + self.ode.state_derivatives:
             d[i.components].append(i)
 
+        # Expressions that do not belong to a named component are written
+        # without a header, so they have to come first. Otherwise they would
+        # be read as a continuation of the preceding `expressions(...)` block
+        no_component = [c for c in d if start_odeblock("expressions", names=c, is_expression=True) == ""]
+        ordered = {c: d[c] for c in no_component + [c for c in d if c not in no_component]}
+
         text = ""
-        for components, intermediates in d.items():
+        for components, intermediates in ordered.items():
             text += start_odeblock("expressions", names=components, is_expression=True) + "\n"
             text += "\n".join([print_assignment(i, doprint=self.doprint) for i in intermediates])
             text += "\n\n"
